@@ -45,6 +45,10 @@ class Obligation:
         self.replay = None
 
 
+class TaskBudget(BaseException):
+    """wall-clock budget of one forked task exhausted (raised from a SIGALRM handler)"""
+
+
 class Check:
     def __init__(self, pid, tier="quick", seed=0, level="proof"):
         self.pid, self.tier, self.seed, self.level = pid, tier, seed, level
@@ -316,6 +320,8 @@ class Check:
             msg = f"{name}: verified code left the supported subset: {e}"
         except paths.PathLimit as e:
             msg = f"{name}: {e}"
+        except TaskBudget as e:
+            msg = f"{name}: {e}"
         except Exception as e:  # noqa: BLE001
             msg = f"{name}: symbolic execution failed: {type(e).__name__}: {e}"
         self.out_of_reach.append(msg)
@@ -349,10 +355,11 @@ class Check:
                 # time budget of one task: changed code can make the symbolic execution blow up (e.g. rotations that
                 # compose along a loop); the task then ends as an undecided section instead of hanging the check
                 import signal
-                budget = int(os.environ.get("PYVC_TASK_BUDGET", "0") or 0) or (420 if self.tier == "quick" else 1500)
+                budget = int(os.environ.get("PYVC_TASK_BUDGET", "0") or 0) or (420 if self.tier == "quick" and not label.startswith(("bounded", "history")) else 1500)
 
                 def _expired(signum, frame):
-                    raise paths.OutOfReach(f"time budget of {budget} s for one task exhausted")
+                    # not an Exception: stand-ins that catch Exception around calls of the real code must not mistake it for a failure
+                    raise TaskBudget(f"time budget of {budget} s for one task exhausted")
                 signal.signal(signal.SIGALRM, _expired)
                 signal.alarm(budget)
                 try:
